@@ -302,8 +302,8 @@ def variants(tier: str) -> List[Dict[str, Any]]:
     V.append(variant("tick-base4-late-props", clock="TICK", props=True, props_late=True, depth=3 if q else 4,
                      alphabet=C15_ALPHABET, base=[("append",), ("append",), ("append",), ("append",)], **one))
     # a data file registered twice (two manifests list it): deletes must still remove exactly the named file
-    rr = (("append",), ("delete_file", "oldest"), ("delete_file", "newest"), ("expire", "all_but_current")) + REREGISTER_OPS \
-        + hist.REGISTER_TWO_OPS
+    rr = (("append",), ("append3",), ("delete_file", "oldest"), ("delete_file", "newest"), ("expire", "all_but_current")) \
+        + REREGISTER_OPS + hist.REGISTER_TWO_OPS
     V.append(variant("tick-reregister", clock="TICK", depth=4 if q else 5, alphabet=rr, base=[("append",)], **one))
     return V
 
